@@ -463,6 +463,9 @@ func runC16(c *Ctx) {
 	checkFilterFetchFailureIsAnError(c, "C16-R2")
 	checkUnsignedSubtractionsAreGuarded(c, "C16-R1")
 	checkBirthdaySearchGivesUpOnlyAtABound(c, "C16-R6")
+	checkFirstSyncRetryConsultsPersistedBirthdayBlock(c, "C16-R6")
+	checkNextIndexGuardsStayOnTheirBranch(c, "C16-R4")
+	checkResurrectReportsEveryRecordedKey(c, "C16-R6")
 	checkFilterLengthGuardAdmitsOneElement(c, "C16-R2")
 	// "interrupted-and-resumed recoveries": a batch that fails is rolled back and repeated by the next attempt in the same
 	// process; the repetition re-derives and re-stores what the failed batch found only if the manager's in-memory indices
